@@ -200,6 +200,39 @@ def t_solve_lemma(eng):
 U_SOLVE = Unit(P + '/lemma-linearity', [], t_solve_lemma, SCH, kind='lemma')
 
 
+def t_dbi_lemma(eng):
+    """lemma over contracts: scaling every voltage by a (hence every current, lemma-linearity) leaves the dBi pattern
+    unchanged.  Uses: the field components are linear in the currents (closed form of C10/compute_far_field-radiation-sum:
+    E = -j g0 sum_p I_p * w_p, the weights w_p independent of the currents), each source power is Re(V conj I)/2
+    (C07/Excitation), the total is their sum (C07/Mininec.compute), and gain = 10 log10(.016678 |E|^2 / P) (C10 tail)."""
+    n = P + '/lemma-dBi-invariant-under-voltage-scaling/'
+    a = fresh_cx('a')
+    eng.assume(b_not(c_eq(a, 0)))
+    I1, I2, w1, w2 = fresh_cx('I1'), fresh_cx('I2'), fresh_cx('w1'), fresh_cx('w2')
+    V1, V2 = fresh_cx('V1'), fresh_cx('V2')
+    E = lambda i1, i2: c_add(c_mul(i1, w1), c_mul(i2, w2))
+    Pw = lambda v1, i1, v2, i2: r_div(r_add(c_mul(v1, c_conj(i1)).re, c_mul(v2, c_conj(i2)).re), 2)
+    P0 = Pw(V1, I1, V2, I2)
+    eng.assume(r_cmp('>', P0, 0))
+    aa = c_abs2(a)
+    # the scaled quantities
+    Es = E(c_mul(a, I1), c_mul(a, I2))
+    Ps = Pw(c_mul(a, V1), c_mul(a, I1), c_mul(a, V2), c_mul(a, I2))
+    step1 = num_eq(c_abs2(Es), r_mul(aa, c_abs2(E(I1, I2))))
+    if eng.oblige(n + 'field-power-scales-by-|a|^2', step1):
+        eng.assume(step1)
+    step2 = num_eq(Ps, r_mul(aa, P0))
+    if eng.oblige(n + 'feed-power-scales-by-|a|^2', step2):
+        eng.assume(step2)
+    k9 = Fraction('0.016678')
+    eng.oblige(n + 'argument-of-the-logarithm-unchanged',
+               num_eq(r_mul(r_mul(k9, c_abs2(Es)), P0), r_mul(r_mul(k9, c_abs2(E(I1, I2))), Ps)))
+    eng.cover('dbi-lemma')
+
+
+U_DBI = Unit(P + '/lemma-dBi-invariance', [], t_dbi_lemma, SCH, kind='lemma')
+
+
 # ---------------------------------------------------------------- Excitation.current / power / impedance
 def t_excitation(eng):
     n = P + '/Excitation/'
@@ -342,4 +375,4 @@ def t_frame_z(eng):
 
 U_FRAME = Unit(P + '/frame-matrix-independent-of-sources', [], t_frame_z, SCH, kind='frame')
 
-UNITS = [U_RHS, U_RHS_LIN, U_CUR, U_SOLVE, U_EXC, U_ASM, U_COMPUTE, U_FRAME]
+UNITS = [U_RHS, U_RHS_LIN, U_CUR, U_SOLVE, U_DBI, U_EXC, U_ASM, U_COMPUTE, U_FRAME]
